@@ -176,7 +176,7 @@ def model_check(rep, max_deps, vals, nparts, small):
     edges, inits = [], []
     for res in results:
         if res.invariant_violated:
-            rep.violation({"component": "DependencyManager", "what": f"model violates {res.invariant_violated}",
+            utilcheck.violation(rep, {"component": "DependencyManager", "what": f"model violates {res.invariant_violated}",
                            "clauses": ["MC:" + res.invariant_violated], "tlc_tail": res.out.splitlines()[-40:]})
             continue
         rep.add("states", res.distinct)
@@ -221,7 +221,7 @@ def replay_edges(rep, edges, inits):
             nsteps += 1
             covered.add(_key([e["cfg"], e["from"], op]))
             if got != e["lab"]["res"]:
-                rep.violation({"component": "DependencyManager", "cfg": cfg, "clauses": ["EdgeReplay"],
+                utilcheck.violation(rep, {"component": "DependencyManager", "cfg": cfg, "clauses": ["EdgeReplay"],
                                "what": f"{op}: observed {got}, model expects {e['lab']['res']}",
                                "ops": done, "model_from": e["from"], "observed": got})
                 aborted += 1
@@ -302,7 +302,7 @@ def report_rejects(rep, traces, rej):
     for r in rej:
         t = traces[r["tid"] - 1]
         ln = r["line"]
-        rep.violation({"component": "DependencyManager", "cfg": t["cfg"], "clauses": sorted(r["clauses"]),
+        utilcheck.violation(rep, {"component": "DependencyManager", "cfg": t["cfg"], "clauses": sorted(r["clauses"]),
                        "line": ln, "observed": t["ops"][ln - 1], "expected": r.get("expected"),
                        "model_state": r.get("state"), "ops": [{k: o[k] for k in ("op", "key", "val")} for o in t["ops"][:ln]],
                        "ctx_flags": t.get("ctx", [])[:ln]})
@@ -361,7 +361,10 @@ def run(rep):
     rep.coverage["trace_situations"] = len(sit)
     rep.sample({"kind": "impl-history", "cfg": traces[0]["cfg"], "ops": traces[0]["ops"][:8]})
     # 4.  binding self-test
-    corrupt_self_test(rep, traces, random.Random(rep.seed + 1))
+    bad = {r["tid"] for r in rej}
+    good = [t for i, t in enumerate(traces) if i + 1 not in bad]
+    if good:
+        corrupt_self_test(rep, good, random.Random(rep.seed + 1))
     rep.coverage["evaluations"] = rep.coverage.get("replay_ops", 0) + ntr * nops
     rep.coverage["distinct_nontrivial"] = rep.coverage.get("edges_total", 0) + len(sit)
     rep.coverage["rule"] = (
